@@ -63,6 +63,14 @@ class Toks:
             return ("keys", self.num())
         if k == "call":
             return ("call", self.num())
+        if k == "req":
+            return ("req",)
+        if k == "ssuper":
+            return ("ssuper", self.num())
+        if k == "sself":
+            return ("sself", self.num(), self.num())
+        if k == "self":
+            return ("block", self.num())
         if k == "for":
             v = self.num()
             n = self.num()
@@ -128,10 +136,10 @@ class Spec:
         defs = {}
         extended = set()
         t = idx
+        for n, b in self.env[t][1].items():
+            defs.setdefault(n, []).append(b)
         while True:
             layout, blocks = self.env[t]
-            for n, b in blocks.items():
-                defs.setdefault(n, []).append(b)
             parent = None
             for it in layout:
                 if it[0] == "extends":
@@ -145,6 +153,10 @@ class Spec:
                         raise SpecErr("TemplateNotFound")
                     extended.add(it[3])
                     parent = it[3]
+                    # from here on the parent's definitions are known (behind the tag nothing
+                    # renders blocks except macro bodies and captured self-calls inside them)
+                    for n, b in self.env[parent][1].items():
+                        defs.setdefault(n, []).append(b)
                     continue
                 # after an executed extends nothing outside blocks is rendered (side effects and
                 # errors of statements still happen)
@@ -166,6 +178,15 @@ class Spec:
         finally:
             scopes.pop()
 
+    def block(self, defs, n, scopes, silent, depth):
+        """a block reference ({% block %}, self.n()): the most-derived definition"""
+        ds = defs.get(n, [])
+        if not ds:
+            raise SpecErr("UnknownBlock")
+        if len(ds) == 1 and ds[0] == [("req",)]:
+            raise SpecErr("InvalidOperation")  # required block not provided
+        return self.body(defs, n, 0, scopes, silent, depth + 1)
+
     def include(self, names, ign, scopes, silent, depth):
         missing = False
         for t in names:
@@ -184,7 +205,7 @@ class Spec:
         if k == "block":
             if silent or extending:
                 return []
-            return self.body(defs, it[1], 0, scopes, silent, depth + 1)
+            return self.block(defs, it[1], scopes, silent, depth)
         if k == "super":
             if cur is None:
                 raise SpecErr("InvalidOperation")
@@ -257,6 +278,26 @@ class Spec:
             if v[0] != "mac":
                 raise NotImplementedError
             return say(v[2])
+        if k == "req":
+            return []
+        if k == "ssuper":
+            # captured super(): never silent inside the capture
+            if cur is None:
+                raise SpecErr("InvalidOperation")
+            n, lvl = cur
+            if lvl + 1 >= len(defs.get(n, [])):
+                raise SpecErr("InvalidOperation")
+            txt = "".join(self.body(defs, n, lvl + 1, scopes, False, depth + 1))
+            scopes[-1][it[1]] = ("str", txt)
+            return []
+        if k == "sself":
+            # captured self.block(): skipped only while a parent is pending
+            if extending:
+                scopes[-1][it[1]] = ("str", "")
+                return []
+            txt = "".join(self.block(defs, it[2], scopes, False, depth))
+            scopes[-1][it[1]] = ("str", txt)
+            return []
         if k == "for":
             out = []
             scopes.append({})
@@ -359,7 +400,7 @@ def nontrivial(case):
 def run(r):
     r.rule = ("every assignment of {absent, override, super-before, super-after} to 3 blocks (one nestable) for chains of 1 and 2 "
               "templates (exhaustive), seeded random chains of 1..4 templates with static/dynamic/conditional extends, the same "
-              "with 1-2 include/import snippets (27 kinds) at top level / in blocks / loops / macros, plus enumerated inheritance "
+              "with 1-2 include/import/self-call snippets (30 kinds) at top level / in blocks / loops / macros, plus enumerated inheritance "
               "cycles, include cycles, double extends and missing templates; a case is non-trivial when it executes an extends, "
               "include or import")
     r.assumptions = [
